@@ -437,7 +437,7 @@ def f_bcast(rng, seed):
     n = Net(seed)
     H, W, C = rng.choice([8, 32, 64]), rng.choice([8, 32, 64]), rng.choice([8, 16, 32])
     x = n.fm("in", [1, H, W, C], is_input=True)
-    shp = rng.choice([[1, 1, 1, 1], [1, 1, 1, C], [1, 1, W, 1], [1, H, 1, 1], [1, 1, W, C]])
+    shp = rng.choice([[1, 1, 1, 1], [1, 1, 1, 1], [1, 1, 1, C], [1, 1, W, 1], [1, H, 1, 1], [1, 1, W, C]])
     y = n.fm("b", shp, scale=0.02, zp=1, is_input=True)
     kind = rng.choice(["ADD", "MUL", "SUB", "MAXIMUM"])
     a = n.conv(x, C, 1) if rng.random() < 0.5 else x
